@@ -135,6 +135,53 @@ def near(sidx, key):
     return out
 
 
+INT_BOUNDS = {"u8": (0, 2**8 - 1), "u16": (0, 2**16 - 1), "u32": (0, 2**32 - 1), "u64": (0, 2**64 - 1), "usize": (0, 2**64 - 1),
+              "i8": (-2**7, 2**7 - 1), "i16": (-2**15, 2**15 - 1), "i32": (-2**31, 2**31 - 1), "i64": (-2**63, 2**63 - 1), "isize": (-2**63, 2**63 - 1)}
+
+
+def tir_int_range(e, env, depth=0):
+    """interval of an integer expression read off the typed tree: literals, widening casts (the source type bounds the value),
+    immutable lets followed to their definition, `NonZero::get`, and otherwise the expression's own type"""
+    e = strip(e)
+    if depth > 8:
+        return None
+    k = e.get("k")
+    if k == "Lit" and e.get("lit") == "int":
+        return (e["v"], e["v"])
+    if k == "Cast":
+        inner = tir_int_range(e["e"], env, depth + 1)
+        own = INT_BOUNDS.get(e.get("ty"))
+        if inner and own and own[0] <= inner[0] and inner[1] <= own[1]:
+            return inner
+        return own
+    if k == "Path" and e.get("res") == "local" and env is not None:
+        r = env.resolve(e, peel=True)
+        if r is not e and r.get("k") != "Path":
+            got = tir_int_range(r, env, depth + 1)
+            own = INT_BOUNDS.get(e.get("ty"))
+            if got and own:
+                return (max(got[0], own[0]), min(got[1], own[1]))
+            return got or own
+    if k == "MethodCall" and e.get("method") == "get" and "NonZero<" in (e["recv"].get("ty") or ""):
+        m = re.search(r"NonZero<(\w+)>", e["recv"].get("ty") or "")
+        b_ = INT_BOUNDS.get(m.group(1)) if m else None
+        return (1, b_[1]) if b_ else None
+    if k == "Binary" and e.get("op") in ("Add", "Sub", "Mul"):
+        a, b_ = tir_int_range(e["l"], env, depth + 1), tir_int_range(e["r"], env, depth + 1)
+        own = INT_BOUNDS.get(e.get("ty"))
+        if a and b_ and own:
+            if e["op"] == "Add":
+                r = (a[0] + b_[0], a[1] + b_[1])
+            elif e["op"] == "Sub":
+                r = (a[0] - b_[1], a[1] - b_[0])
+            else:
+                c = [a[0] * b_[0], a[0] * b_[1], a[1] * b_[0], a[1] * b_[1]]
+                r = (min(c), max(c))
+            return r if own[0] <= r[0] and r[1] <= own[1] else None
+        return None
+    return INT_BOUNDS.get(e.get("ty"))
+
+
 def discharge_tir(F, ctx, owner, site, sidx):
     """R-class decisions that need the typed tree (iterator-bounded indices, slices up to a searched position)"""
     t = site["term"]
@@ -142,6 +189,51 @@ def discharge_tir(F, ctx, owner, site, sidx):
     if b is None:
         return None
     root = b["tir"]["value"]
+    if site["kind"] in ("overflow:Add", "overflow:Sub", "overflow:Mul") and t.get("t") == "assert":
+        # a plain binary operation whose operand intervals, read off the typed tree, cannot leave the result type
+        op = site["kind"].split(":", 1)[1]
+        for key in (t.get("esp"), site.get("sp")):
+            if not key:
+                continue
+            for o, n in near(sidx, tuple(key)):
+                if o == owner and n.get("k") == "Binary" and n.get("op") == op and not n.get("overloaded"):
+                    if (id(F), o) not in _ENVS:
+                        _ENVS[(id(F), o)] = tir.LetEnv(root)
+                    env = _ENVS[(id(F), o)]
+                    a, b2 = tir_int_range(n["l"], env), tir_int_range(n["r"], env)
+                    own = INT_BOUNDS.get(n.get("ty"))
+                    # an enclosing `if x < C` / `if x <= C` (x an unassigned local, this site in the then-branch) bounds x
+                    par = parents(root)
+
+                    def guarded(e, rng_):
+                        e0 = strip(e)
+                        if not (e0.get("k") == "Path" and e0.get("res") == "local") or rng_ is None:
+                            return rng_
+                        if any(x.get("k") in ("Assign", "AssignOp") and strip(x["l"]).get("id") == e0.get("id") for x in tir.walk(root)):
+                            return rng_
+                        y = n
+                        hi = rng_[1]
+                        while id(y) in par:
+                            p = par[id(y)]
+                            if p.get("k") == "If" and p.get("cond") is not y and any(z is y for z in tir.walk(p["then"])):
+                                c = strip(p["cond"])
+                                if c.get("k") == "Binary" and c.get("op") in ("Lt", "Le") and strip(c["l"]).get("id") == e0.get("id") and strip(c["l"]).get("k") == "Path":
+                                    try:
+                                        cv = order.Evaluator(F).eval(c["r"], {})
+                                    except L.Unsupported:
+                                        cv = None
+                                    if isinstance(cv, int):
+                                        hi = min(hi, cv - 1 if c["op"] == "Lt" else cv)
+                            y = p
+                        return (rng_[0], hi)
+                    a, b2 = guarded(n["l"], a), guarded(n["r"], b2)
+                    if a and b2 and own:
+                        r = (a[0] + b2[0], a[1] + b2[1]) if op == "Add" else ((a[0] - b2[1], a[1] - b2[0]) if op == "Sub" else None)
+                        if op == "Mul":
+                            c = [a[0] * b2[0], a[0] * b2[1], a[1] * b2[0], a[1] * b2[1]]
+                            r = (min(c), max(c))
+                        if r and own[0] <= r[0] and r[1] <= own[1]:
+                            return "operands range over %s and %s (typed tree): the result %s stays inside %s" % (a, b2, r, n.get("ty"))
     if site["kind"] == "bounds":
         key = tuple(site["sp"])
         for o, n in near(sidx, key):
